@@ -1107,14 +1107,30 @@ impl World {
                 .collect();
             payments.sort_by_key(|p| p.to_string());
             let excess = st.excess_amount;
+            // read from the live object, not through the storage model (see the tracker below)
+            let hwm = st.dbid_high_water_mark;
+            let mut invs: Vec<String> = st.invoices.iter().map(|(h, p)| format!("{}:{}:{}:{}", hex::encode(h.0), hex::encode(p.invoice_hash), p.amount_msat, p.is_fulfilled)).collect();
+            invs.sort();
             drop(st);
             let allow: Vec<String> = self.node.allowlist().unwrap_or_default();
-            json!({"entry": v, "payments": payments, "excess_amount": excess, "allowlist": allow})
+            json!({"entry": v, "payments": payments, "excess_amount": excess, "allowlist": allow, "direct": {"dbid_high_water_mark": hwm, "invoices": invs}})
         };
         let tracker = {
             let t = self.node.get_tracker();
             let e: ChainTrackerEntry = (&*t).into();
-            serde_json::to_value(&e).unwrap()
+            let mut v = serde_json::to_value(&e).unwrap();
+            // the same fields read from the live object itself: the storage model's own conversion
+            // is code under test, and a field it drops would otherwise be invisible on both sides
+            // of every live / restored comparison
+            use lightning_signer::bitcoin::hashes::Hash as _;
+            let hdr = |h: &lightning_signer::chain::tracker::Headers| format!("{}:{}", h.0.block_hash(), hex::encode(h.1.to_byte_array()));
+            v["direct"] = json!({
+                "tip": hdr(&t.tip),
+                "height": t.height,
+                "headers": t.headers.iter().map(|h| hdr(h)).collect::<Vec<_>>(),
+                "listeners": t.listeners.len(),
+            });
+            v
         };
         json!({"channels": chans, "node": node_state, "tracker": tracker})
     }
